@@ -894,6 +894,10 @@ public:
         auto init_inv = init;
         if (is_root) {
           is_root = false;
+          if (is_recursive) {
+            // The root is also entered through its recursive calls.
+            init_inv = init_inv | m_call_tbl.get_call_ctx(fdecl);
+          }
         } else {
           init_inv = m_call_tbl.get_call_ctx(fdecl);
         }
